@@ -192,6 +192,12 @@ REWRITE_RULES = {
     # rule id -> validator(from, to) -> bool
     'W': lambda a, b: re.fullmatch(r'(.+)\.len\(\)', a) and b == 'range_len(&%s)' % re.fullmatch(r'(.+)\.len\(\)', a).group(1),
     'R6': lambda a, b: a.replace('|', '||', 1) == b or a.replace(' | ', ' || ') == b,
+    # R7: compound assignment on a primitive float (Verus crashes on `f32 +=`): `x op= e` -> `x = x op e`
+    'R7': lambda a, b: bool(re.fullmatch(r'(\w+)\s*([-+*/])=\s*(.+)', a, re.S)) and (lambda m: b == '%s = %s %s %s' % (m.group(1), m.group(1), m.group(2), m.group(3)))(re.fullmatch(r'(\w+)\s*([-+*/])=\s*(.+)', a, re.S)),
+    # T1: explicit type ascription on a `let` whose type rustc infers from later uses (ghost text needs it earlier)
+    'T1': lambda a, b: bool(re.fullmatch(r'(let\s+(mut\s+)?\w+)(\s*=.*)', a, re.S)) and re.sub(r'^(let\s+(mut\s+)?\w+)\s*:\s*[^=]+?(\s*=)', r'\1\3', b, flags=re.S) == a,
+    # CL: closure `|x| EXPR` given explicit parameter/return types and ghost requires/ensures: `|x: T| -> (r: U) requires .. ensures .. { EXPR }`
+    'CL': lambda a, b: (lambda m: bool(m) and re.search(r'\|\s*%s\s*:' % re.escape(m.group(1)), b) is not None and norm_ws(b).endswith(norm_ws('{ ' + m.group(2) + ' }')))(re.fullmatch(r'\|\s*(\w+)\s*\|\s*(.+)', a, re.S)),
     'S1': lambda a, b: True,   # monomorphisation of a generic parameter / iterator type; logged
     'W2': lambda a, b: True,   # call routed through a prelude wrapper whose body is that same call; logged
 }
@@ -300,8 +306,9 @@ def process(template_path, info, out_lines, depth=0):
         s = ln.strip()
         if s.startswith('//@include '):
             inc = s.split(None, 1)[1].strip()
-            info['includes'].append(inc)
-            process(os.path.join(VERIF, inc), info, out_lines, depth + 1)
+            if inc not in info['includes']:      # include-once
+                info['includes'].append(inc)
+                process(os.path.join(VERIF, inc), info, out_lines, depth + 1)
             i += 1
         elif s.startswith('//@assume '):
             cid = s.split()[1]
